@@ -282,6 +282,13 @@ impl Runner {
             }
             return;
         }
+        // C13, the other direction: a request whose body is within the limit is never rejected for size — whatever the size
+        // of the item it produces (an append onto a large value, a value that crosses a constant other than the limit)
+        if let Some(st) = out.strip_prefix("resp ").and_then(|r| wire::unhex(r.split(' ').next().unwrap())).and_then(|b| wire::parse_resp(&b).ok()).map(|r| r.status) {
+            if st == 0x0003 {
+                self.oracle.violations.push(oracle::Violation { props: vec!["C13"], line: lineno, msg: format!("a request (opcode {:#x}) whose body of {} bytes is within the item limit {} was answered 'too large'", h.opcode, h.body_len, self.limit) });
+            }
+        }
         if let Some(rest) = out.strip_prefix("resp ") {
             let tok = rest.split(' ').next().unwrap();
             if tok == "silent" {
@@ -491,6 +498,63 @@ impl Runner {
         let mut master = Rng::new(seed);
         // programs under a limit above 64 KiB carry values (and dumps) of 100 KB and more: a bounded number per run
         let mut big_left = 60u32;
+        if profile == "C06" {
+            // directed, scale: values that grow by appends and prepends beyond 1 MiB and towards the configured limit of
+            // several MiB, every request within the limit — each must be applied (C06: old+suffix / prefix+old; C13: never
+            // rejected for size)
+            self.exec("new 4194304");
+            let piece = |c: u8, n: usize| vec![c; n];
+            self.exec(&format!("req {}", hex(&wire::set_like(wire::op::SET, b"acc", &piece(b'a', 600 << 10), 7, 0, 0, 1).bytes())));
+            self.exec(&format!("req {}", hex(&wire::append_like(wire::op::APPEND, b"acc", &piece(b'b', 600 << 10), 0, 2).bytes())));
+            self.exec(&format!("req {}", hex(&wire::key_only(wire::op::GET, b"acc", 0, 3).bytes())));
+            self.exec(&format!("req {}", hex(&wire::append_like(wire::op::PREPEND, b"acc", &piece(b'c', 300 << 10), 0, 4).bytes())));
+            self.exec(&format!("req {}", hex(&wire::append_like(wire::op::APPENDQ, b"acc", b"z", 0, 5).bytes())));
+            self.exec(&format!("req {}", hex(&wire::key_only(wire::op::GET, b"acc", 0, 6).bytes())));
+            self.exec("dump");
+        }
+        if matches!(profile, "C01" | "C05" | "C08") {
+            // directed, scale (1): more than a thousand stores over a few dozen keys on one server — whatever the store does
+            // every so many operations must not touch what is live; all keys are read back every 150 stores
+            let mut rng = master.fork();
+            self.exec("new 1024");
+            self.exec("now 100");
+            let nkeys = 30 + rng.range(0, 20);
+            let total = 1300 + rng.range(0, 900);
+            for i in 0..total {
+                let k = format!("lk{}", rng.below(nkeys)).into_bytes();
+                let ttl = *rng.pick(&[0u32, 0, 500, 5000]);
+                let opc = *rng.pick(&[wire::op::SET, wire::op::SET, wire::op::SETQ]);
+                self.exec(&format!("req {}", hex(&wire::set_like(opc, &k, format!("v{}", i).as_bytes(), i as u32, ttl, 0, i as u32).bytes())));
+                if i % 150 == 149 || i + 1 == total {
+                    for j in 0..nkeys {
+                        self.exec(&format!("req {}", hex(&wire::key_only(wire::op::GET, format!("lk{}", j).as_bytes(), 0, j as u32).bytes())));
+                    }
+                    self.exec(&format!("now {}", 100 + i / 150));
+                }
+            }
+            self.exec("dump");
+            // directed, scale (2): several hundred items, a delayed flush, the deadline passes: every one of them is gone
+            // (and before the deadline every one is still there)
+            let mut rng = master.fork();
+            self.exec("new 1024");
+            self.exec("now 50");
+            let nkeys = 600 + rng.range(0, 500);
+            for i in 0..nkeys {
+                let ttl = *rng.pick(&[0u32, 0, 0, 1000, 100000]);
+                self.exec(&format!("req {}", hex(&wire::set_like(wire::op::SETQ, format!("fk{}", i).as_bytes(), b"f", 0, ttl, 0, i as u32).bytes())));
+            }
+            let delay = 5 + rng.range(0, 20) as u32;
+            self.exec(&format!("req {}", hex(&wire::flush(wire::op::FLUSH, Some(delay), 1).bytes())));
+            self.exec(&format!("now {}", 50 + delay as u64 - 1));
+            for i in (0..nkeys).step_by(7) {
+                self.exec(&format!("req {}", hex(&wire::key_only(wire::op::GET, format!("fk{}", i).as_bytes(), 0, i as u32).bytes())));
+            }
+            self.exec(&format!("now {}", 50 + delay as u64 + rng.range(0, 2)));
+            for i in 0..nkeys {
+                self.exec(&format!("req {}", hex(&wire::key_only(wire::op::GET, format!("fk{}", i).as_bytes(), 0, i as u32).bytes())));
+            }
+            self.exec("dump");
+        }
         for _ in 0..count {
             let mut rng = master.fork();
             // now and then a limit above 64 KiB: bodies whose length does not fit 16 bits
@@ -558,6 +622,21 @@ impl Runner {
             }
             for i in 0..lens.len() {
                 self.exec(&format!("req {}", hex(&wire::key_only(wire::op::GET, format!("fill{}", i).as_bytes(), 0, 100 + i as u32).bytes())));
+                self.exec("dump");
+            }
+        }
+        if profile == "C14" || profile == "C15" {
+            // directed, scale: thousands of small records, then single stores each of which needs thousands of victims
+            // (the bound is checked behind every large store; the store is dumped only there)
+            let mut rng = master.fork();
+            self.exec("newp 130000 131072");
+            let smalls = 4800 + rng.range(0, 400);
+            for i in 0..smalls {
+                self.exec(&format!("req {}", hex(&wire::set_like(wire::op::SETQ, format!("s{}", i).as_bytes(), b"x", 0, 0, 0, i as u32).bytes())));
+            }
+            self.exec("dump");
+            for j in 0..3u32 {
+                self.exec(&format!("req {}", hex(&wire::set_like(wire::op::SET, format!("big{}", j).as_bytes(), &vec![b'B'; 120000], 0, 0, 0, j).bytes())));
                 self.exec("dump");
             }
         }
